@@ -9,11 +9,9 @@ TB = ("Trusted: Coq 8.16.1 kernel + vm_compute (no native_compute); extraction w
 
 CLAIMED = {
  "C16": dict(
-   text="Theorems in coq/Properties/C16.v over the executable model of klog's value types (time round trip over all 8,640 values by a lifted sweep, "
-        "Plus and range arithmetic for all integers by lia, offset formula); the model is tied to the code by exhaustive correspondence "
-        "(all 132,000 time-shaped strings, duration/date/plus/range grids) plus a property oracle written from the specification.",
+   text="17 theorems in coq/Properties/C16.v: time, date and duration literals accepted are EXACTLY the specification's (iff, via sweeps over all 132,000 time-shaped strings and structural inversion), text round trips (all 8,640 times; all dates; all durations within int64), Plus arithmetic for all integers (error outside the window or the integer range), range validity and length. Tied to the code by exhaustive request grids (all time strings, duration/date/plus/range grids incl. int64 boundaries) and a specification oracle.",
    design="§4 C16", technique="Coq proof (lia + lifted finite sweep) over hand model; extracted-model-vs-Go differential correspondence",
-   note=TB + "Axioms: none (Closed under the global context). Known findings K5, K6 (int64 overflow panics) are printed, not suppressed beyond their exact inputs."),
+   note=TB + "Axioms: none. Known finding K5 (NewDurationFromString panics beyond int64; pinned by a maintainers' test). K6 fixed."),
  "C14": dict(
    text="Theorems in coq/Properties/C14.v over the executable model of klog's tag handling (coq/Model/Tags.v): the hand-written matcher equal to Go's "
         "leftmost-first FindAll of HashTagPattern finds, on every rune list without a line feed, exactly and uniquely the tags of a declarative definition "
@@ -99,21 +97,21 @@ CLAIMED = {
              "its 48 strings run on every check from corpus/C15/patterns.txt and nothing suppresses a crash on them. Quarter() uses float64 ceil in Go and integer division in the model: covered by the "
              "exhaustive correspondence, not by proof."),
  "C08": dict(
-   text="Theorems in coq/Properties/C08.v, for ALL byte strings: lines_lossless, blocks_lossless, no_blocks_iff_all_blank, line_numbers_consecutive, block_shape (+ located/wellformed lemmas), by list induction over the executable model of txt.ParseBlock / mapParse; tied to the code by the `blocks` correspondence on conforming documents and byte streams plus an independent Python oracle (re-concatenation, numbering, one significant run per block) and the no-op reconcile run.",
+   text='9 theorems in coq/Properties/C08.v for ALL byte strings: lines lossless, blocks lossless, no blocks iff all blank, consecutive numbering, block shape, well-formed lines, located lines. Tied to the code by the `blocks` correspondence on conforming documents and byte streams with an independent re-concatenation/numbering/shape oracle and the no-op reconcile run.',
    design="§4 C08", technique="Coq proof (list induction) over hand model; extracted-model-vs-Go differential correspondence",
-   note=TB + "Axioms: none. Model reflects fix F1 (ParseBlock width)."),
+   note=TB + 'Axioms: none. Model reflects fix F1.'),
  "C06": dict(
-   text="Theorems in coq/Properties/C06.v: parse_record never crashes on a block, parse_text is total for every byte string and returns records with one block each XOR at least one error (parse_text_total, never Crash/Err, blockwise characterisation). Every panic site of the Go parser is an explicit Crash in the model. Tied to the code by exhaustive token strings (k=3 quick), mutated documents, random bytes, very long inputs, and an oracle-only run of every read-only command (serial and parallel) on whatever the parser returned.",
+   text='7 theorems in coq/Properties/C06.v: parse_text is total on every byte string (records with one block each XOR >= 1 error; never Crash/Err), blockwise characterisation, evaluation guards exact, and C06_evaluate_total_partial (total, report, today, with-totals, tag aggregation never crash under the int64 guard; --now, filters, json not covered) with the K1 witness. Tied to the code by exhaustive token strings, mutated documents, random bytes, very long inputs and far-right errors, and an oracle-only run of every read-only command (serial and parallel) on whatever the parser returned.',
    design="§4 C06", technique="Coq proof (totality by induction, Crash-freedom) over hand model; differential correspondence + end-to-end command runs",
-   note=TB + "Axioms: none. Evaluation commands are covered by the oracle-only `evaluate` suite, not by a theorem (render_errors_total / evaluate_total of DESIGN are not stated). Known finding K1 (sum overflow panic). Hanging/memory exhaustion of the implementation: harness time-outs only."),
+   note=TB + 'Axioms: none. Known finding K1. Hanging/memory exhaustion of the implementation: harness time-outs only. Model reflects fixes F1, F2, F3.'),
  "C10": dict(
-   text="Theorems in coq/Properties/C10.v: errors_located (line exists, quoted text is that line, 0 <= pos, 0 <= len, pos+len <= runes+1) and errors_ascending for every byte string, by case analysis over all error sites of the parser model with cursor-arithmetic lemmas. Tied to the code by faulted documents (12 fault kinds at every line position; first error on the faulty line), the malformed byte streams, and an oracle-only suite that parses the terminal and JSON renderings (serial and parallel) and compares line / caret offset / caret count / column / length.",
+   text='25 theorems in coq/Properties/C10.v: every reported error names an existing line, quotes it, stays within it (+1), errors ascend; renderings are total and agree (terminal line/caret offset/caret count = JSON line/column-1/length; guard exact); first_error_at_fault for all 15 fault classes. Tied to the code by faulted documents (first error on the faulty line), malformed byte streams and an oracle-only suite parsing the real terminal and JSON renderings, serial and parallel.',
    design="§4 C10", technique="Coq proof (case analysis over error sites) over hand model; differential correspondence + rendering oracle",
-   note=TB + "Axioms: none. first_error_at_fault is checked by the spec-based fault injector (oracle), not stated as a theorem. Model reflects fixes F3, F9."),
+   note=TB + 'Axioms: none. Model reflects fixes F3, F9.'),
  "C07": dict(
-   text="Executable model of splitIntoChunks, the per-batch worker, arrival-order collection and the merge loop (coq/Model/Parallel.v); theorems in coq/Properties/C07.v (collect_any_order, chunks_partition, parallel_eq_serial as far as proved — see the file header). Tied to the code by `par` requests: texts x worker counts 1..len+2 x arrival orders forced through the add-only hook; the Go side itself compares parallel and serial results (records, blocks, line indices, errors).",
+   text='9 theorems in coq/Properties/C07.v: par_parse s n order = parse_text s for every text, n >= 1 and every arrival permutation (C07_parallel_eq_serial), any arrival multiset, chunks partition the text at rune starts never between CR and LF, any CRLF-respecting partition works, and the refuted witness for arbitrary partitions (the F11 defect). Tied to the code by texts x worker counts 1..len+2 x arrival orders forced through the add-only hook; the Go side compares parallel with serial (records, blocks, line indices, errors incl. messages).',
    design="§4 C07", technique="Coq proof (permutation invariance, loop invariant) over hand model; differential correspondence with forced schedules",
-   note=TB + "Real goroutine scheduling and channel semantics are not modelled (results are stored by index: ~10 trusted lines). Model reflects fixes F1 and F11 (CRLF never split across chunks)."),
+   note=TB + 'Axioms: none. Real goroutine scheduling and channel semantics are not modelled (results are stored by index). Model reflects fixes F1 and F11.'),
  "C12": dict(
    text="Theorems in coq/Properties/C12.v over the executable model of klog's evaluation views (coq/Model/Report.v: service.Sort, groupByDate over the "
         "period hashes of klog/service/period, allDatesRange for --fill, the row loop with hashesAlreadyProcessed, --diff, --now; klog total; "
@@ -139,37 +137,37 @@ CLAIMED = {
              "has no year label when it lies in ISO year -1: records dated 0000-01-01/02), K1-C12 (int64 overflow panics, K1 seen through the views). Tag filters "
              "are left to C13; --chart is not modelled (it adds a column, no number)."),
  "C02": dict(
-   text="Model of service.Total/ShouldTotalSum/Diff/CloseOpenRanges with safemath overflow as Crash (coq/Model/Eval.v); theorems in coq/Properties/C02.v (total_spec etc. under the exact int64 guard). Tied to the code by `klog total --diff [--now]` on conforming documents at chosen instants, compared with the model and with an independent Python evaluation of the specification's rules.",
+   text="21 theorems in coq/Properties/C02.v: entry minutes = the specification's sentence; total/should-total/diff equal the mathematical sums exactly when every partial sum fits safemath's range and crash otherwise (dichotomy, K1 witness); additivity, permutation invariance, independence of dates/overlaps; CloseOpenRanges characterised exactly (which records close, at which offset, when it refuses) and total --now = total + closing gains. Tied to the code by `klog total --diff [--now]` on conforming documents and on multi-open-range scenarios at chosen instants, compared with the model and with an independent Python evaluation of the specification's rules.",
    design="§4 C02", technique="Coq proof (list induction, lia) over hand model; differential correspondence + spec oracle",
-   note=TB + "Known finding K1: sums beyond int64 panic."),
+   note=TB + 'Axioms: none. Known finding K1 (sums beyond int64 panic).'),
  "C01": dict(
-   text="Specification formalised as a Coq AST with render/denote (coq/Spec/Spec.v); layered theorems in coq/Properties/C01.v that the parser model accepts rendered conforming texts with the denoted data (layers reached are listed in the file header; unproved layers are named _partial). Tied to the code by documents generated from an independent Python transcription of the grammar (lib/specgen.py) whose expected records are compared with the implementation's, and by 12 kinds of injected MUST-violations that must be rejected.",
+   text="25 theorems in coq/Properties/C01.v over the parser model and a Coq formalisation of the specification (Spec/Spec.v: AST, wf, render, denote): every well-formed specification document is accepted and parses to exactly the denoted records (C01_parse_conforming, with the value-literal, entry-line and record layers as theorems of their own), and every listed fault class (bad/non-Gregorian date, headline text, indentation first/later, bad time, missing dash, bad end, minutes overflow, bad placeholder, reversed range, second open range, blank summary start, blank line inside, stray text) injected into an arbitrary well-formed document is rejected with >= 1 error and no records. Tied to the code by documents drawn from an independent Python transcription of the grammar whose expected records are compared with the implementation's, and 12 kinds of injected faults.",
    design="§4 C01", technique="Coq proof (layered induction over spec AST) over hand model; differential correspondence + grammar-based generator with expected denotation",
-   note=TB + "Known finding K3 (Zs-only lines). Model reflects fixes F2, F10."),
+   note=TB + 'Axioms: none. C01_parse_rejects_malformed_entry_partial is the only partial statement (generic malformed entry via parse_entry_value = EvErr). Known finding K3 (Zs-only lines, refuted witness in the file). Model reflects fixes F2, F10.'),
  "C09": dict(
-   text="Model of SerialiseRecords with the plain serialiser (coq/Model/Serialiser.v); theorems in coq/Properties/C09.v as far as proved (see file header). Tied to the code by `klog print --no-style` through the real CLI on conforming documents in every admissible formatting: output parsed and printed again by both model and implementation; oracle: same records (only a zero should-total is dropped), second print identical, four-space/LF/one-blank-line layout.",
+   text='9 theorems in coq/Properties/C09.v: print = render of the canonical document, print/parse round trip under no_trailing_cr (K2 witness refuted), print idempotent, parse o print o parse = parse for every well-formed document, literal normalisations. Tied to the code by `klog print --no-style` through the real CLI on conforming documents: output parsed and printed again by model and implementation, with a round-trip/layout oracle.',
    design="§4 C09", technique="Coq proof over hand model; differential correspondence through the real CLI + round-trip oracle",
-   note=TB + "Known finding K2 (summary line ending in a lone CR) — outside the generator (no trailing CR)."),
+   note=TB + 'Axioms: none. Known finding K2 (summary line ending in a lone CR).'),
  "C03": dict(
-   text="Model of the text reconciler (insert, to_multiline, the six operations, creators) in coq/Model/Reconcile.v and of the commands in coq/Model/Commands.v; theorems in coq/Properties/C03.v as far as proved. Tied to the code by histories of real CLI commands (kong parsing included, fake clock, real files): result bytes compared with the model, and a dynamic-programming minimal-edit oracle (every original line survives in order, only the allowed token/append changes, contiguous insertions).",
+   text="24 theorems in coq/Properties/C03.v: an inductive relation `edit` (every original line survives in order with text and ending; at most c allowed rewrites; an ending gained only where lines are added; at most n contiguous blocks) proved for insert, each reconciler operation and each whole command with exact budgets (track/start/create (0,1), stop (2,1), switch (2,2), pause (1,1) per write); placeholder and value-token rewrites characterised. Tied to the code by histories of real CLI commands with a dynamic-programming minimal-edit oracle on the implementation's files.",
    design="§4 C03", technique="Coq proof over hand model; differential correspondence on command histories + minimal-edit oracle",
-   note=TB + "Model reflects fix F7."),
+   note=TB + 'Axioms: none. Model reflects fix F7.'),
  "C04": dict(
-   text="Commands as pure functions file -> file in coq/Model/Commands.v; theorems in coq/Properties/C04.v as far as proved (refinement per command, _partial). Tied to the code by histories of up to 8 commands where the file of one step feeds the next; after each step the re-read records are compared with an abstract model written from the property text (Python: add entry / new record at chronological position with configured should-total / close open range with appended summary / pause by whole elapsed minutes carrying tags; rejected commands change nothing).",
+   text="16 theorems in coq/Properties/C04.v: for all six commands, when the abstract model on records accepts, exec succeeds and re-reading the file yields exactly the model's records, lifted to arbitrary histories (C04_history_refines_partial); rejections of start/stop/switch leave the file unchanged; create keeps date order. _partial because files are spec-conforming (spec_state) and arguments spec objects, and the rejecting direction is missing for track/pause. Two refuted witnesses (unterminated CR last line, trailing blank after `?`). Tied to the code by histories of up to 8 real CLI commands (file of one step feeds the next) compared step by step with an independent abstract model in Python.",
    design="§4 C04", technique="Coq proof (refinement, partial) over hand model; differential correspondence on histories + abstract-model oracle",
-   note=TB + "Known finding K15 (track with leading blank). Pause loop driven through the add-only tick hook; ticker and signals not modelled."),
+   note=TB + 'Axioms: none. Known finding K15 (track with leading blank). Pause loop driven through the add-only tick hook; ticker and signals not modelled.'),
  "C05": dict(
-   text="reconcile_file in the model returns a new file only from its last step; theorems in coq/Properties/C05.v as far as proved (exec_ok_valid, exec_err_no_write). Tied to the code by histories on valid and invalid targets with parameters chosen to make steps fail: success => file parses, failure => bytes identical, no crash.",
+   text='14 theorems in coq/Properties/C05.v: success => the written file parses (all commands incl. every pause tick); failure of a non-pause command => file untouched, for every failure class and for a failure in step k of n (switch). Tied to the code by histories on valid and invalid targets with parameters chosen to make steps fail: success => parses, failure => bytes identical and non-zero exit, no crash.',
    design="§4 C05", technique="Coq proof over hand model; differential correspondence + fault-oriented histories",
-   note=TB + "os.WriteFile atomicity (crash during the write) is outside the property's quantifier and the model."),
+   note=TB + "Axioms: none. Exit codes are read off klog.Run by the harness (not in the model). os.WriteFile atomicity is outside the property's quantifier."),
  "C11": dict(
-   text="Model of determine/elect/tally (first voter wins ties) and ReformatDirective in coq/Model/Reconcile.v; theorems in coq/Properties/C11.v as far as proved. Tied to the code by histories on files with every per-record style combination, ties and whitespace-only lines, each run 4 times from scratch (byte-identical results required), with an oracle for line ending / indentation / date separator of inserted lines (own style > unanimous file style > default).",
+   text='24 theorems in coq/Properties/C11.v: the election returns the most voted value, ties to the earliest first vote (unique characterisation), default when nobody votes, unanimous value otherwise; own explicit style wins; inserted lines are exactly indent^level ++ text ++ eol; value formats follow directive > configuration > record > file > default. Determinism holds because exec is a function. Tied to the code by histories on files with every style combination, ties and whitespace-only lines, each run 4 times from scratch, with a style oracle (eol, indentation, date separator, clock convention, dash spacing, placeholder length).',
    design="§4 C11", technique="Coq proof over hand model; differential correspondence with repetition + style oracle",
-   note=TB + "Model reflects fixes F4 (deterministic tie-break) and F5 (significant lines only)."),
+   note=TB + 'Axioms: none. Model reflects fixes F4, F5.'),
  "C17": dict(
-   text="Model of AtDate/AtTime/RoundToNearest/WasAutomatic and the stop fallback in coq/Model/Commands.v; theorems in coq/Properties/C17.v as far as proved (round_spec, at_time_spec, stop_fallback_spec). Tied to the code by a clock-face sweep: start/stop/switch without --time at every minute x 8 roundings x date selections x record layouts, and `total --now` at every minute; oracles: abstract model (expected offsets, failures) and no-crash.",
+   text="10 theorems in coq/Properties/C17.v: rounding = nearest multiple with ties up, in [0,1440]; at_time by target date (today, +1440, -1440, missing time; impossible exactly at rounded 24:00 for yesterday); stop's fallback to yesterday only when automatic and no record today; never a crash (first-day witness refuted). Tied to the code by a clock-face sweep of start/stop/switch at every minute x roundings x date selections x record layouts and `total --now` at every minute.",
    design="§4 C17", technique="Coq proof (lia / lifted clock-face sweep) over hand model; exhaustive clock sweep correspondence",
-   note=TB + "Model reflects fix F6."),
+   note=TB + 'Axioms: none. Model reflects fix F6.'),
  "C20": dict(
    text="Theorems in coq/Properties/C20.v over the executable model of `klog json` (coq/Model/JsonView.v: Context.ReadInputs over one or several files, "
         "ToJson with its record / entry / tag / error views in the member order of view.go, the safemath panics of service.Total and service.Diff, "
